@@ -5,6 +5,7 @@ import (
 	"runtime"
 	"sort"
 	"strings"
+	"time"
 
 	"verifsim/engine"
 	"verifsim/gtier"
@@ -49,7 +50,23 @@ func (c *svc) Assumptions() []string {
 
 // runWorld executes one configured world inside a bubble and reports harness trouble as a
 // panic (machinery error), goroutine leaks through the returned error.
+// drawTimeJumps: in a third of the runs the fake clock jumps once or twice while work is in progress
+// (a slow proof, a slow client): 2 s, 30 s or 5 min. Nothing in the property allows a timeout to cut a
+// request short, so the oracles stay the same.
+func drawTimeJumps(x *engine.Ctx, w *service.World) {
+	t := x.T
+	if !t.Chance(1, 3) {
+		return
+	}
+	n := 1 + t.Draw(2)
+	for i := 0; i < n; i++ {
+		d := []time.Duration{2 * time.Second, 30 * time.Second, 5 * time.Minute}[t.Pick(3)]
+		w.TimeJumps = append(w.TimeJumps, service.TimeJump{Step: 60 + t.Draw(500), D: d})
+	}
+}
+
 func runWorld(x *engine.Ctx, sim *service.Sim, w *service.World, mode string) error {
+	drawTimeJumps(x, w)
 	// swarm knob: a third of the runs execute on a single P, so that P-local runtime state
 	// (sync.Pool private slots, per-P caches) is shared between the tasks the scheduler interleaves
 	if x.T.Chance(1, 3) {
